@@ -111,6 +111,12 @@ class PtrDomain(Domain):
         where = self.m.rel(loc(call))
         # pointer origins seen (for the instance count)
         v = flow.canon(s, call)
+        # an object named by a call expression (the node a pop returned): executing the same call again yields another
+        # object, so what is known about the earlier one no longer applies to that name
+        if name and isinstance(v, str) and len(v) > 4:
+            for k_ in [k_ for k_ in s.d if isinstance(k_, tuple) and k_[0] in ("freed", "freedfirst", "realloc") and v in str(k_[1])]:
+                del s.d[k_]
+                s._k = None
         if name in ("cmi_hashheap_dequeue", "cmi_hashheap_item", "cmi_hashheap_peek_item"):
             self.out["origins"].add((self.root.name, name, args[0] if args else "?", where))
         # invalidation
